@@ -641,9 +641,13 @@ class ExtendedKalmanFilter:
 
         assert_valid_covariance(covariance.data)
 
+        S_t = np.matmul(H_t, np.matmul(covariance.data, H_t.transpose())) + Q_t.data
+        # H P H^T is symmetric by construction. The products round relative to
+        # |H|^2 |P|, which can be far larger than S itself, so remove that
+        # asymmetry instead of presenting it to the validity check
         self.sensor_prediction_uncertainty[sensor_key] = S_t = (
-            np.matmul(H_t, np.matmul(covariance.data, H_t.transpose())) + Q_t.data
-        )
+            S_t + S_t.transpose()
+        ) / 2.0
         assert_valid_covariance(S_t, name="Sensor Uncertainty")
 
         S_inv = np.linalg.inv(S_t)
